@@ -10,9 +10,13 @@ Theorems (every program, thread count, policy behaviour, interleaving): Fv.Props
 Fv.Props.C11Conc (real-time order), Fv.Props.C16Conc; lemmas Fv.Lemmas.CacheConc*.
 Tie (T3): harness/cache/src/bin/conch.rs runs generated multi-thread programs on the REAL `Cache` on real
 threads under a baton scheduler installed through the cfg(excsn_fibre_verif) yield points placed between the
-critical sections (random schedules + stateless DFS over tiny programs); `fvdrv_cacheconc` replays every step
-on the model: the step must be enabled for that thread, its outcome / return value must be the model's, and
-after every scheduling decision the implementation's `current_cost` and resident map must equal the model's.
+critical sections AND before every shard / maintenance lock acquisition (second hook: every HybridRwLock /
+HybridMutex acquisition and every clock read is reported), random schedules + stateless DFS over tiny programs;
+`fvdrv_cacheconc` replays every step on the model: the step must be enabled for that thread, its outcome /
+return value must be the model's, the lock acquisitions and clock reads observed inside the step must be exactly
+the model's footprint of that step (Fv.Cache.Conc.footprint, order and mode included), and after every scheduling
+decision the implementation's `current_cost` and resident map must equal the model's. Expiry: virtual clock
+`advance` ops, TTL / TTI / per-insert TTL (theorems Fv.Props.C12Conc).
 
 Used by the property scripts of C11, C12, C13, C16:
     from props import cacheconc; cacheconc.obligations(ctx); cacheconc.tie(ctx)
@@ -40,12 +44,14 @@ SIG_PREFIXES = {
     "C13": ("conc:accounting:",),
     "C16": ("conc:listener:",),
 }
-WITNESSES = [os.path.join(VERIF, "findings", f) for f in ("cacheconc_capacity_policy_cost.case",)]
+WITNESSES = [os.path.join(VERIF, "findings", f) for f in ("cacheconc_capacity_policy_cost.case", "cacheconc_expiry.case")]
 
 ASSUMPTIONS = [
     "cacheconc: each critical section (one shard map guard, one policy call, one atomic op on current_cost, one channel push/pop) is atomic: the tie yields only BETWEEN them (hook points), so interleavings inside a section and weak-memory effects of the Relaxed counter are not explored",
     "cacheconc: policies are oracles (admission decision, victims, released cost come from the implementation and are label parameters of the model); the policy contract itself is C14",
-    "cacheconc: the background janitor thread is parked (tick 1 h) and maintenance is driven through run_maintenance / cooperative maintenance — the model's `maint` operation also covers the janitor's own cleanup shape (try_lock, limit 256), which is not driven by the tie; TTL cleanup is in the model (oracle expiry set) but the tie runs without TTL",
+    "cacheconc: the background janitor thread is parked (tick 1 h) and maintenance is driven through run_maintenance / cooperative maintenance — the model's `maint` operation also covers the janitor's own cleanup shape (try_lock, limit 256), which is not driven by the tie; the expiry set of the timer wheel (tick-driven, F7) and the TTI sample are oracles read from the implementation",
+    "cacheconc: time is the virtual clock of the cfg(excsn_fibre_verif) hook; it advances only through `advance` operations of the programs (any thread, any point of the interleaving); cases that use expiry own the process-global clock (serialised)",
+    "cacheconc: parking_lot mutexes (policies, timer wheel, LoadFuture) are not reported by the lock hook; their critical sections are separated by the named yield points only",
     "cacheconc: delivery of accepted notifications by the notifier thread (channel FIFO, exactly once) is the channel's contract (C01/C02), not modelled here; a full notification channel drops the notification (`sent = false`)",
     "cacheconc: current_cost is an unbounded integer in the model; the u64 the implementation reports is its value mod 2^64 (compared after every step)",
 ]
